@@ -2032,6 +2032,8 @@ def _d6(ctx, roles, offsets):
     if not rp:
         raise AnalysisError('_record_revisit has no offset parameter')
     P = rp[0]
+    from .common import revisit_lookup_rule
+    revisit_lookup_rule(ctx, 'C05-D6')
     # --- the caller hands over the offset that was used for the payload digest
     rcalls = [c for c in _mcalls(er.node, rv.name) if U.is_self_attr(c.func)]
     if not rcalls:
